@@ -10,19 +10,19 @@ use configs::configs;
 fn describe(prop: &str) -> (&'static str, &'static str) {
     match prop {
         "C03" => (
-            "cw3-fixed and cw3-flex(+real cw4-group): weight vectors [1,1,1],[0,1,1],[0,1,2],[1,2,3],[1,3],[0,0,1] x thresholds AbsoluteCount{1,2,T}, AbsolutePercentage{50,51,66.7,100%}, ThresholdQuorum{(50,33.3),(51,50),(66.7,40),(100,100),(50,1e-9)} x Height/Time voting period; Propose by members (incl. zero-weight) and an outsider with latest in {none, shorter, already expired}; Vote{yes,no,abstain,veto} by everyone; Execute, Close by member and outsider; AdvanceBlock to two blocks past expiry; one proposal (full matrix) and two concurrent proposals (subset)",
+            "cw3-fixed and cw3-flex(+real cw4-group): weight vectors [1,1,1],[0,1,1],[0,1,2],[1,2,3],[1,3],[0,0,1] x thresholds AbsoluteCount{1,2,T}, AbsolutePercentage{50,51,66.7,100%}, ThresholdQuorum{(50,33.3),(51,50),(66.7,40),(100,100),(50,1e-9)} x Height/Time voting period; Propose by members (incl. zero-weight) and an outsider with latest in {none, shorter, already expired}; Vote{yes,no,abstain,veto} by everyone; Execute, Close by member and outsider; AdvanceBlock to two blocks past expiry; one proposal (full matrix) and two concurrent proposals (subset); sub-second block times (expiry instant inside a second); proposals whose message makes the multisig close / execute the previous proposal; a flex multisig that listens to its group (MemberChangedHook); a deposit refunded by the rejecting vote",
             "after every step, for every proposal: status from Proposal{id}, ListProposals and ReverseProposals agree; tally recomputed from the paged ListVotes; independent spec function in exact integer arithmetic (Passed iff yes>0 and every completion of the outstanding weight satisfies the rule at expiry / the rule itself after expiry; Rejected only if expired unpassed or no completion passes; Open only before expiry and not passing); Execute admitted iff implied Passed; Close admitted only if expired, not passing, not executed",
         ),
         "C05" => (
-            "proposals carrying tagged messages to a receiver stub (1 or 2, order observable), a bank send the multisig cannot afford until funded, a re-entrant Execute of itself, a nested Execute/Close of the previous proposal; up to 2 (quick) / 3 (thorough) concurrent proposals; latest in {none, shorter, longer than max, never, other kind}; Vote{yes,no}; Execute/Close by proposer, zero-weight member, outsider, Only(addr) executor; AdvanceBlock; receiver failure toggled on/off (fault bound 1 quick / 2 thorough); executor in {None, Member, Only} (flex); all three threshold kinds; both period kinds",
+            "proposals carrying tagged messages to a receiver stub (1 or 2, order observable), a bank send the multisig cannot afford until funded, a re-entrant Execute of itself, a nested Execute/Close of the previous proposal; up to 2 (quick) / 3 (thorough) concurrent proposals; latest in {none, shorter, longer than max, never, other kind}; Vote{yes,no}; Execute/Close by proposer, zero-weight member, outsider, Only(addr) executor; AdvanceBlock; receiver failure toggled on/off (fault bound 1 quick / 2 thorough); executor in {None, Member, Only} (flex, also Only(address in upper case) and Member with a zero-weight member removed later); all three threshold kinds; both period kinds; text-only proposals with a deposit; the same message twice in a row; group changes in the opening block; an Abstain that tips the outcome; the proposer as caller of Close",
             "kernel dispatch trace: each proposal's messages reach the receiver at most once over the whole history, exactly as proposed and in order, only inside an accepted Execute (top-level or nested) made while its status was Passed and by an authorised caller; failed dispatch leaves everything unchanged and the proposal executable later; Close accepted only on expired, unpassed, never-dispatched proposals and delivers nothing; per-proposal status automaton Open->{Passed,Rejected}, Passed->Executed; ids = previous max + 1, listings ordered; title/msgs/threshold/total/proposer/expiry/deposit never change; expiry <= creation + max voting period, other-kind latest refused",
         ),
         "C06" => (
-            "cw3-fixed voter lists incl. repeated addresses, zero weights, single voter; cw3-flex with a real cw4-group [A:1,B:5,C:1] / [A:0,B:1]: UpdateMembers (remove B, add X:2, re-weight A->3, C->0, B->5) by the group admin and by a member, placed by BFS before, in the same block as (before and after the Propose) and after each proposal and vote; Propose by member/outsider; Vote{yes,no} by everyone; AdvanceBlock",
-            "reference records the membership at the start of every block; per proposal: threshold.total_weight == sum of that snapshot; every ballot (paged ListVotes, and Vote{voter} point query agrees) carries the voter's snapshot weight; addresses absent or with weight 0 in the snapshot have no ballot except the proposer's implicit Yes; one ballot per address, recorded ballots never change; votes accepted only before expiry, on unexecuted proposals, from eligible addresses without a ballot; sum of ballots <= total; cross-checked against the group's own Member{at_height}/TotalWeight{at_height}; fixed: total == sum of ListVoters",
+            "cw3-fixed voter lists incl. repeated addresses, zero weights, single voter; cw3-flex with a real cw4-group [A:1,B:5,C:1] / [A:0,B:1]: UpdateMembers (remove B, add X:2, re-weight A->3, C->0, B->5) by the group admin and by a member, placed by BFS before, in the same block as (before and after the Propose) and after each proposal and vote; Propose by member/outsider; Vote{yes,no,abstain,veto} by everyone; AdvanceBlock; voter lists repeating an address with weight 0 or in two spellings; 33 voters / members (count and percentage thresholds); the multisig registered as a hook, unregistered and re-registered by the admin; a cw4-stake contract as the group (members bond / unbond, down to nothing); sub-second block times",
+            "reference records the membership at the start of every block; per proposal: threshold.total_weight == sum of that snapshot; every ballot (paged ListVotes, and Vote{voter} point query agrees) carries the voter's snapshot weight; addresses absent or with weight 0 in the snapshot have no ballot except the proposer's implicit Yes; one ballot per address, recorded ballots never change; votes accepted only before expiry, on unexecuted proposals, from eligible addresses without a ballot; sum of ballots <= total; a snapshot voter is not refused because the group changed later; cross-checked against the group's own Member{at_height}/TotalWeight{at_height}; fixed: total == sum of ListVoters",
         ),
         "C15" => (
-            "cw3-flex with native deposit (2 ucosm) or cw20 deposit (2 of a real cw20-base token pulled with TransferFrom), refund_failed_proposals on/off, three threshold kinds, groups [A:1,C:3] and [A:1,B:1,C:1]; Propose with funds {none,1,2,3,other denom,two coins} / cw20 allowance {1,2,3} set by prior IncreaseAllowance; Vote{yes,no}; Execute and Close (repeated) by proposer and outsider; AdvanceBlock; 2 (3) proposals sharing the pool; finite purses",
+            "cw3-flex with native deposit (2 ucosm) or cw20 deposit (2 of a real cw20-base token pulled with TransferFrom), refund_failed_proposals on/off, three threshold kinds, groups [A:1,C:3] and [A:1,B:1,C:1]; Propose with funds {none,1,2,3,other denom,two coins} / cw20 allowance {1,2,3} set by prior IncreaseAllowance; Vote{yes,no}; Execute and Close (repeated) by proposer and outsider; AdvanceBlock; 2 (3) proposals sharing the pool; finite purses; fund lists with zero-amount coins and the deposit denom in upper case; a zero-weight proposer with abstentions only; a voting period of zero; a quorum proposal passing only at expiry with refunds off; a hooked group changing while a deposit is owed",
             "deposit ledger vs REAL bank / cw20 balances of every actor and the multisig after every step: Propose accepted only with exactly the configured coin attached (native) and moves exactly the deposit proposer->multisig; refund only to the proposer, at most once, mandatory on Execute, permitted (refunds enabled) on the Vote that makes the proposal fail or on Close, never otherwise; recoverability: from every reachable state with a failed, unrefunded proposal and refunds enabled, a bounded exhaustive search over AdvanceBlock^k (k<=4) [Vote]? (Close|Execute) by any actor must reach a state where the proposer has the deposit back",
         ),
         "C04" => (
